@@ -118,6 +118,13 @@ func (s *lightClientStateProvider) Commit(ctx context.Context, height uint64) (*
 	if err != nil {
 		return nil, err
 	}
+	// The light client accepts a header on +2/3 of the signatures (and, backwards, on the
+	// hash chain alone). This commit is stored as the node's seen commit, from which
+	// consensus rebuilds its vote set, so every signature in it has to be valid.
+	if err := header.ValidatorSet.VerifyCommit(s.lc.ChainID(), header.Commit.BlockID, header.Height,
+		header.Commit); err != nil {
+		return nil, fmt.Errorf("commit at height %d: %w", height, err)
+	}
 	return header.Commit, nil
 }
 
